@@ -98,6 +98,7 @@ type c19Step struct {
 	Ok       bool
 	Obs      c19Obs
 	Verdicts [][2]int64 // EndBlock: (accused, status) of the allegation_tracker events
+	Elected  []int64    // EndBlock: validators sent to Tendermint with positive power (the election)
 	Descr    string
 }
 type c19Case struct {
@@ -114,6 +115,7 @@ type c19Run struct {
 	rep     *Replica
 	cast    []ValSpec
 	addrID  map[string]int64 // "0lt…" -> id
+	pubID   map[string]int64 // consensus pubkey bytes -> id
 	ids     []keys.Address   // id-1 -> address
 	bountyK string
 	bounty0 *big.Int
@@ -157,6 +159,10 @@ func c19NewRun(sc *c19Script) *c19Run {
 		r.addrID[a.String()] = int64(i + 1)
 	}
 	r.ids = addrs
+	r.pubID = map[string]int64{}
+	for _, c := range r.cast {
+		r.pubID[string(c.Val.Pub.Data)] = r.addrID[c.Val.Addr.String()]
+	}
 	r.rep = NewReplica(g, ReplicaOpts{NodeVal: w.Vals[0].Val})
 	r.rep.InitChain()
 	r.t = r.rep.T0
@@ -323,6 +329,24 @@ func (r *c19Run) low(committed map[string]string) []int64 {
 	return out
 }
 
+func c19TieAtCutoff(q [][2]int64, cfg c19Cfg) bool {
+	n := 0
+	for _, e := range q {
+		if e[1] >= cfg.MinPower {
+			n++
+		}
+	}
+	if int64(n) <= cfg.TopN {
+		return false
+	}
+	for i := 1; i < len(q); i++ {
+		if q[i][1] == q[i-1][1] && q[i][1] >= cfg.MinPower {
+			return true
+		}
+	}
+	return false
+}
+
 func (r *c19Run) nextMemo() string { r.memo++; return fmt.Sprintf("c19-%d", r.memo) }
 
 func c19RunScript(sc *c19Script) (cs *c19Case) {
@@ -340,6 +364,11 @@ func c19RunScript(sc *c19Script) (cs *c19Case) {
 	cs.Init = r.observe()
 	for _, b := range sc.Blocks {
 		committed := r.rep.Dump()
+		if c19TieAtCutoff(r.queue(committed), r.cfg) {
+			// equal powers around the TopValidatorCount cut-off: the heap's pop order among them is
+			// not a function of the powers; the history ends here
+			break
+		}
 		absent := map[string]bool{}
 		for _, i := range b.Absent {
 			if i >= 0 && i < len(r.cast) {
@@ -438,6 +467,12 @@ func c19RunScript(sc *c19Script) (cs *c19Case) {
 			st.Verdicts = append(st.Verdicts, [2]int64{mal, status})
 		}
 		sort.Slice(st.Verdicts, func(i, j int) bool { return st.Verdicts[i][0] < st.Verdicts[j][0] })
+		for _, u := range eb.ValidatorUpdates {
+			if u.Power > 0 {
+				st.Elected = append(st.Elected, r.pubID[string(u.PubKey.Data)])
+			}
+		}
+		sort.Slice(st.Elected, func(i, j int) bool { return st.Elected[i] < st.Elected[j] })
 		st.Obs = r.observe()
 		r.rep.Commit()
 		cs.Steps = append(cs.Steps, st)
@@ -530,7 +565,7 @@ func (op c19Op) coq() string {
 func (c *c19Case) coq() string {
 	st := []string{}
 	for _, s := range c.Steps {
-		st = append(st, fmt.Sprintf("  (mkStep %s %s %s %s)", s.Op.coq(), c19B(s.Ok), s.Obs.coq(), c19Pairs(s.Verdicts)))
+		st = append(st, fmt.Sprintf("  (mkStep %s %s %s %s %s)", s.Op.coq(), c19B(s.Ok), s.Obs.coq(), c19Pairs(s.Verdicts), c19List(s.Elected)))
 	}
 	return fmt.Sprintf(" (mkCase %s %s [\n%s])", c.Script.Cfg.coq(), c.Init.coq(), strings.Join(st, ";\n"))
 }
@@ -565,7 +600,7 @@ func c19GenCfg(r *rand.Rand) c19Cfg {
 	pen := [][2]int64{{30, 100}, {1, 3}, {5, 1000}, {50, 100}, {100, 100}, {7, 9}}[r.Intn(6)]
 	bo := [][2]int64{{50, 100}, {1343, 10000}, {100, 100}, {0, 100}, {1, 3}}[r.Intn(5)]
 	return c19Cfg{VotePct: v[0], VoteDec: v[1], AllegPct: a[0], AllegDec: a[1], PenBase: pen[0], PenDec: pen[1], BountyPct: bo[0], BountyDec: bo[1],
-		ReleaseDays: int64(r.Intn(3)), BlockVotesDiff: 4, MinVotes: []int64{1, 3, 4}[r.Intn(3)], MinPower: 1000, TopN: 16}
+		ReleaseDays: int64(r.Intn(3)), BlockVotesDiff: 4, MinVotes: []int64{1, 3, 4}[r.Intn(3)], MinPower: 1000, TopN: []int64{16, 16, 2, 3}[r.Intn(4)]}
 }
 
 func c19GenScript(r *rand.Rand, name string, nblocks int) *c19Script {
@@ -573,6 +608,18 @@ func c19GenScript(r *rand.Rand, name string, nblocks int) *c19Script {
 	sc := &c19Script{Name: name, NVals: nv, Cfg: c19GenCfg(r)}
 	for i := 0; i < nv; i++ {
 		sc.Powers = append(sc.Powers, []int64{3000000, 2999001, 1000, 1500, 777777, 123457}[r.Intn(6)])
+	}
+	if sc.Cfg.TopN < 16 {
+		// oversubscribed election: more qualified stakers than slots, pairwise different powers
+		if nv < 4 {
+			nv = 4 + r.Intn(3)
+			sc.NVals = nv
+		}
+		perm := r.Perm(6)
+		sc.Powers = nil
+		for i := 0; i < nv; i++ {
+			sc.Powers = append(sc.Powers, []int64{3000000, 2999001, 4100, 1500, 777777, 123457}[perm[i]])
+		}
 	}
 	ncast := nv + 3
 	nreq := 0
@@ -659,7 +706,7 @@ func c19GenScript(r *rand.Rand, name string, nblocks int) *c19Script {
 				if target >= 0 && target <= nv && r.Intn(2) == 0 {
 					a.Who = target
 				}
-				a.Amount = []int64{1, 500, 1000, 2000, 2999000}[r.Intn(5)]
+				a.Amount = []int64{1, 500, 1000, 2000, 2999000, 3100000, 654321}[r.Intn(7)]
 				// now and then the whole genesis stake: the validator record is deleted two blocks later
 				if a.Kind == "unstake" && a.Who < nv && r.Intn(3) == 0 {
 					a.Amount = sc.Powers[a.Who]
@@ -793,6 +840,24 @@ func c19Directed() []*c19Script {
 			c19Block{DT: 86400 + 1, Acts: []c19Act{{Kind: "release", Who: 3}, {Kind: "withdraw", Who: 3, Amount: 1000}}},
 			c19Block{DT: 15, Acts: []c19Act{{Kind: "allege", Who: 1, Mal: 3, Req: 1}, {Kind: "stake", Who: 3, Amount: 5000}}})
 		sc.Blocks = append(sc.Blocks, idle(2)...)
+		out = append(out, sc)
+	}
+	// oversubscribed election: 5 stakers, 2 slots; standby stakers accuse and vote (must be refused);
+	// a standby staker stakes its way into the top 2, the out-staked validator is refused from then on
+	{
+		c := base
+		c.TopN = 2
+		c.VotePct, c.VoteDec = 100, 100
+		sc := &c19Script{Name: "standby-stakers", NVals: 5, Cfg: c, Powers: []int64{3000000, 2999000, 2998000, 2997000, 2996000}}
+		sc.Blocks = idle(5)
+		sc.Blocks = append(sc.Blocks,
+			c19Block{DT: 15, Acts: []c19Act{{Kind: "allege", Who: 2, Mal: 1, Req: 0}, {Kind: "allege", Who: 3, Mal: 1, Req: 1}}},
+			c19Block{DT: 15, Acts: append([]c19Act{{Kind: "allege", Who: 0, Mal: 1, Req: 2}}, votes(2, []int{2, 3, 4}, nil)...)},
+			c19Block{DT: 15, Acts: []c19Act{{Kind: "stake", Who: 4, Amount: 10000}}},
+			c19Block{DT: 15},
+			c19Block{DT: 15, Acts: append(votes(2, []int{4, 1, 2}, nil), c19Act{Kind: "allege", Who: 1, Mal: 0, Req: 3})},
+			c19Block{DT: 15, Acts: votes(2, []int{0, 3}, nil)})
+		sc.Blocks = append(sc.Blocks, idle(3)...)
 		out = append(out, sc)
 	}
 	// accused is not a validator
